@@ -14,6 +14,8 @@ import Verif.C03.Lemmas
 import Verif.C03.StableLemmas
 import Verif.C03.StatusLemmas
 import Verif.C03.PenmanLemmas
+import Verif.C03.LexText
+import Verif.C03.LexIndent
 
 namespace Verif.C03
 open Verif.Codec Verif.Sem
@@ -203,6 +205,60 @@ example : Expressible ⟨some "e2".toList,
 example : (match decodeEds (toksE ⟨true, true, true, false⟩ ⟨none, [], none⟩) with
     | .ok r => decide (r.1 = ⟨none, [], none⟩ ∧ r.2 = [])
     | .error _ => false) = true := by decide
+
+/-! ## Text level: lexer model ∘ encoder text, both layouts
+
+`Lex.lex` is a character-level model of `_EDSLexer` (the thirteen classes pinned below, in order, on the lines
+`str.splitlines()` gives); `textE` is the text `_encode_eds` writes — one line for `indent=None/False`, for
+`indent=True` the lines `#id`, `{top: (fragmented)`, one line per node, `}`; `dumpsText` joins graphs with a blank
+resp. an empty line.  `lexOKb o e` is the explicit decidable predicate on the strings of the graph: identifiers,
+predicates, top, types, property names/values, roles and targets are SYMBOLs (`symOKb`: non-empty, none of blank, line
+feed, `: , < ( [ ] { }`, no line break, not starting with `|` or `#`); printed alignments are of a kind the LNK class
+carries (`lnkOKb`); constants are ANY strings without line breaks; the graph identifier has no white space or `{`. -/
+
+theorem lex_textE_all (o : Opts) (e : EDS) (hok : Lex.lexOKb o e = true) :
+    Lex.lex (textE o e) = some (toksE o e) := by
+  cases hi : o.indent
+  · exact Lex.lex_textE o e hi hok
+  · exact Lex.lex_textE_indent o e hi hok
+
+theorem lex_dumpsText_all (o : Opts) (es : List EDS) (hok : ∀ e ∈ es, Lex.lexOKb o e = true) :
+    Lex.lex (dumpsText o es) = some (es.flatMap (toksE o)) := by
+  cases hi : o.indent
+  · exact Lex.lex_dumpsText o es hi hok
+  · exact Lex.lex_dumpsText_indent o hi es hok
+
+/-- [core] the lexer reads the encoder's text of a lexable graph — with and without indentation, status markers
+shown or hidden — as exactly the token view the token-level theorems are stated over. -/
+theorem lexer_reads_encoder_text (o : Opts) (e : EDS) (hok : Lex.lexOKb o e = true) :
+    Lex.lex (textE o e) = some (toksE o e) := lex_textE_all o e hok
+
+/-- [core] `decode (encode e) = view e` on TEXT, for all sixteen option vectors: "for every EDS, decoding its native …
+encoding yields the same top, node identifiers, predicates, types, properties, constants, alignments and
+role-labelled edges … with and without indentation, with the status markers … shown or hidden, for graphs with no
+top". -/
+theorem native_roundtrip_text (o : Opts) (e : EDS) (hx : Expressible e) (hok : Lex.lexOKb o e = true) :
+    Lex.decodeText (textE o e) = .ok (viewE o e) := by
+  have h := native_roundtrip o e hx []
+  simp only [List.append_nil] at h
+  simp [Lex.decodeText, lex_textE_all o e hok, decodeOne, h, bind, Except.bind, pure, Except.pure]
+
+/-- [core] the multi-graph list form on text: `loads (dumps es) = es.map view`, both layouts, also for no graph. -/
+theorem docs_roundtrip_text (o : Opts) (es : List EDS) (hx : ∀ e ∈ es, Expressible e)
+    (hok : ∀ e ∈ es, Lex.lexOKb o e = true) : Lex.loadsText (dumpsText o es) = .ok (es.map (viewE o)) := by
+  simp [Lex.loadsText, lex_dumpsText_all o es hok, docs_roundtrip o es hx]
+
+/-- "re-encoding the decoded graph in the native format reproduces the text", on text. -/
+theorem reencode_stable_text (o : Opts) (e : EDS) (hx : Expressible e) (hok : Lex.lexOKb o e = true) :
+    ∃ d, Lex.decodeText (textE o e) = .ok d ∧ textE o d = textE o e :=
+  ⟨viewE o e, native_roundtrip_text o e hx hok, textE_viewE o e hx⟩
+
+/-- the lexability predicate is satisfiable, also with a constant full of quotes, backslashes and brackets -/
+example : Lex.lexOKb ⟨true, true, true, false⟩ ⟨some "e2".toList,
+    [⟨"x1".toList, "pron".toList, some "x".toList, [], [("PERS".toList, "3".toList)], none, .charspan 0 2⟩,
+     ⟨"e2".toList, "_rain_v_1".toList, some "e".toList, [("ARG1".toList, "x1".toList)], [],
+      some "a\"b\\ (c) {d} [e] <0:1>".toList, .tokens [1, 2]⟩],
+    some "id-1".toList⟩ = true := by decide
 
 /-! ## Pins: the constants of the anchored code that the hand-written model mirrors
 
